@@ -1778,10 +1778,11 @@ class TLSConnection(TLSRecordLayer):
                 for result in self._sendMsg(certificate_verify):
                     yield result
 
-        # Do after client cert and verify messages has been sent.
+        # RFC 8446 section 7.1: the transcript for "exp master" ends with
+        # the server Finished, whether or not the client authenticates
         exporter_master_secret = derive_secret(secret,
                                                bytearray(b'exp master'),
-                                               self._handshake_hash, prfName)
+                                               server_finish_hs, prfName)
 
         self._recordLayer.calcTLS1_3PendingState(
             serverHello.cipher_suite,
@@ -3394,6 +3395,12 @@ class TLSConnection(TLSRecordLayer):
                                        self._handshake_hash, prf_name)
         sr_app_traffic = derive_secret(secret, bytearray(b's ap traffic'),
                                        self._handshake_hash, prf_name)
+        # RFC 8446 section 7.1: same transcript (ClientHello...server
+        # Finished), whether or not the client authenticates later
+        exporter_master_secret = derive_secret(secret,
+                                               bytearray(b'exp master'),
+                                               self._handshake_hash,
+                                               prf_name)
         self._recordLayer.calcTLS1_3PendingState(serverHello.cipher_suite,
                                                  cl_app_traffic,
                                                  sr_app_traffic,
@@ -3498,13 +3505,6 @@ class TLSConnection(TLSRecordLayer):
                         AlertDescription.decrypt_error,
                         "signature verification failed"):
                     yield result
-
-        # as both exporter and resumption master secrets include handshake
-        # transcript, we need to derive them early
-        exporter_master_secret = derive_secret(secret,
-                                               bytearray(b'exp master'),
-                                               self._handshake_hash,
-                                               prf_name)
 
         # verify Finished of client
         cl_finished_key = HKDF_expand_label(cl_handshake_traffic_secret,
